@@ -459,6 +459,10 @@ def check(ctx):
     with ctx.shared({"C02.R3": ("C03.R8", "the purge fallback removes every record of the socket: every element of that source, both children, both "
                                 "address families whatever the other family holds")}):
         C02.r3(ctx, retsets)
+    from specs import C07
+    with ctx.shared({"C07.R3": ("C03.R9", "when the data is given up (expiry purge) the next query is forced to be a Reset Query: both tables purged, "
+                                "request_session_id = true, serial 0 - never a Serial Query for data that is gone")}):
+        C07.r3(ctx, retsets)
     ctx.not_decided("that the table contents equal previous + announcements - withdrawals (C02's set semantics composed with R1-R5)")
     ctx.not_decided("cancellation of the worker thread in the middle of the receive loop (covered by rtr_stop's purge, C07.R4)")
 
